@@ -12,6 +12,7 @@ from .codegen import CodeGen
 from .exceptions import ErrorCode as EC, InternalError, CompileError
 from .parser import parse_string
 from .evalctx import EvaluationContext, Routine
+from qvm.memlayout import get_type_size
 
 
 logger = logging.getLogger(__name__)
@@ -846,11 +847,25 @@ class Pass2(CompilePass):
 
             if node.kind == 'dim_shared':
                 self.compilation.global_vars[decl.name] = decl.type
+                scope_vars = self.compilation.global_vars
             elif node.kind == 'static' or \
                  node.parent_routine.is_static:
                 node.parent_routine.static_vars[decl.name] = decl.type
+                scope_vars = node.parent_routine.static_vars
             else:
                 node.parent_routine.local_vars[decl.name] = decl.type
+                scope_vars = node.parent_routine.local_vars
+
+            # variable operands are 16 bits wide
+            total_size = sum(
+                get_type_size(self.compilation, vtype)
+                for vtype in scope_vars.values())
+            if total_size > 65535:
+                raise CompileError(
+                    EC.INVALID_DIMENSIONS,
+                    'Too much data: the variables of this scope need '
+                    f'{total_size} cells (limit: 65535)',
+                    node=decl)
 
     def process_assignment_pre(self, node):
         if not node.lvalue.type.is_coercible_to(node.rvalue.type):
